@@ -25,6 +25,8 @@ import (
 	"go.miragespace.co/specter/tun/server"
 
 	"go.uber.org/zap"
+
+	"verif/engine/report"
 )
 
 const (
@@ -366,4 +368,48 @@ func nodeStr(n *protocol.Node) string {
 
 func nodeEq(a, b *protocol.Node) bool {
 	return a.GetId() == b.GetId() && a.GetAddress() == b.GetAddress() && a.GetRendezvous() == b.GetRendezvous() && a.GetUnknown() == b.GetUnknown()
+}
+
+// ---------------------------------------------------------------------------
+// violation sink: de-duplicates, orders by signature and caps the number of reported
+// violations (a badly broken tree must not write tens of thousands of replay files).
+// ---------------------------------------------------------------------------
+
+type violItem struct {
+	sig, what string
+	replay    any
+}
+
+type violSink struct {
+	c     *report.Check
+	max   int
+	seen  map[string]bool
+	items []violItem
+}
+
+func newViolSink(c *report.Check) *violSink {
+	return &violSink{c: c, max: 200, seen: map[string]bool{}}
+}
+
+func (v *violSink) add(sig, what string, replay any) {
+	sig = strings.ReplaceAll(sig, " ", "_")
+	if v.seen[sig] {
+		return
+	}
+	v.seen[sig] = true
+	v.items = append(v.items, violItem{sig, what, replay})
+}
+
+func (v *violSink) flush() {
+	sort.SliceStable(v.items, func(i, j int) bool { return v.items[i].sig < v.items[j].sig })
+	for i, it := range v.items {
+		if i >= v.max {
+			break
+		}
+		v.c.Violation(it.sig, it.what, it.replay)
+	}
+	v.c.Set("violating_inputs_total", len(v.items))
+	if len(v.items) > v.max {
+		v.c.Set("violating_inputs_reported", v.max)
+	}
 }
